@@ -42,6 +42,8 @@ pub struct Game {
     sim_count: std::collections::HashMap<i32, u32>,
     /// report a checksum with every save
     pub with_checksum: bool,
+    /// set when the configured glitch fired during the last `handle` call
+    pub glitch_fired: bool,
     /// checksum of the most recent save of each frame (bounded)
     pub saved: std::collections::HashMap<i32, u64>,
 }
@@ -60,6 +62,7 @@ impl Game {
             glitch: None,
             sim_count: Default::default(),
             with_checksum: true,
+            glitch_fired: false,
             saved: Default::default(),
         }
     }
@@ -69,6 +72,7 @@ impl Game {
     /// `["A", [[value, status] ...]]`.  A load of an empty cell is reported with frame -2.
     pub fn handle<T: HCfg>(&mut self, reqs: Vec<GgrsRequest<T>>) -> Vec<Value> {
         let mut out = Vec::with_capacity(reqs.len());
+        self.glitch_fired = false;
         for r in reqs {
             match r {
                 GgrsRequest::SaveGameState { cell, frame } => {
@@ -113,6 +117,7 @@ impl Game {
                     }
                     if let Some((gf, k)) = self.glitch {
                         if gf == f && *n == k {
+                            self.glitch_fired = true;
                             h = (h + 1) % HASH_MOD;
                         }
                     }
